@@ -84,10 +84,13 @@ def oracle_newmark(case, R):
             M = np.diag(keep) @ M @ np.diag(keep)
     rf = sorted(set(i % n for i in case["rf"])) if form == "diag" else []
     rf = [i for i in rf if i not in massless][:max(0, n - 1)]
-    F = rng.integers(-4, 5, (n, nt)).astype(float)
-    d0 = rng.integers(-2, 3, n).astype(float) * case["icscale"] if case["ic"] else None
-    v0 = rng.integers(-2, 3, n).astype(float) * case["icscale"] if case["ic"] else None
     nonlin = case["nonlin"] if not rf else []
+    # any units (linear problems only: forces and initial conditions times one factor)
+    usc = float(case.get("uscale", 1.0)) if not nonlin else 1.0
+    R.label("uscale=1" if usc == 1.0 else "uscale:other")
+    F = rng.integers(-4, 5, (n, nt)).astype(float) * usc
+    d0 = rng.integers(-2, 3, n).astype(float) * case["icscale"] * usc if case["ic"] else None
+    v0 = rng.integers(-2, 3, n).astype(float) * case["icscale"] * usc if case["ic"] else None
     mform = case["mform"]
     if form == "diag" and not massless:
         M_in = None if (mform == "none") else (np.diag(M).copy() if mform == "vec" else M)
@@ -183,7 +186,8 @@ def newmark_cases(draw):
             "rf": draw(st.lists(st.integers(0, 4), max_size=2)) if draw(st.integers(0, 3)) == 0 else [],
             "ic": draw(st.booleans()), "icscale": draw(st.sampled_from([1.0, 0.01])),
             "mform": draw(st.sampled_from(["none", "vec", "mat"])), "bvec": draw(st.booleans()),
-            "kvec": draw(st.booleans()), "nonlin": nl, "fpack": draw(st.sampled_from(util.PACKS)), "reuse": draw(st.integers(0, 2)) == 0}
+            "kvec": draw(st.booleans()), "nonlin": nl, "fpack": draw(st.sampled_from(util.PACKS)), "reuse": draw(st.integers(0, 2)) == 0,
+            "uscale": draw(st.sampled_from([1.0, 1.0, 1e-10, 2.0 ** -30, 1e9]))}
 
 
 # ---------------------------------------------------------------- CDF recurrence
@@ -216,9 +220,11 @@ def oracle_cdf(case, R):
         P *= case["ratio"] * np.sqrt(np.outer(bd[el], bd[el])) / max(np.abs(P).max(), 1e-300)
         Cod[np.ix_(el, el)] = P
     Bfull = np.diag(bd) + Cod
-    F = rng.integers(-4, 5, (n, nt)).astype(float)
-    d0 = rng.integers(-2, 3, n).astype(float) if case["ic"] else np.zeros(n)
-    v0 = rng.integers(-2, 3, n).astype(float) / h if case["ic"] else np.zeros(n)
+    usc = float(case.get("uscale", 1.0))
+    R.label("uscale=1" if usc == 1.0 else "uscale:other")
+    F = rng.integers(-4, 5, (n, nt)).astype(float) * usc
+    d0 = rng.integers(-2, 3, n).astype(float) * usc if case["ic"] else np.zeros(n)
+    v0 = rng.integers(-2, 3, n).astype(float) / h * usc if case["ic"] else np.zeros(n)
     rbpos = list(range(nrb))
     if case.get("perm") and n > 1:
         # any mode order: rigid-body equations interleaved with elastic ones (non-contiguous partitions)
@@ -302,7 +308,7 @@ def cdf_cases(draw):
             "ic": draw(st.booleans()), "mform": draw(st.sampled_from(["none", "vec", "mat"])),
             "cls": draw(st.sampled_from(["SolveCDF", "SolveUnc"])), "rb_given": draw(st.booleans()),
             "bmat": draw(st.booleans()), "perm": draw(st.booleans()), "fpack": draw(st.sampled_from(util.PACKS)),
-            "reuse": draw(st.integers(0, 2)) == 0}
+            "reuse": draw(st.integers(0, 2)) == 0, "uscale": draw(st.sampled_from([1.0, 1.0, 1e-10, 2.0 ** -30, 1e9]))}
 
 
 # ---------------------------------------------------------------- convergence and stability
